@@ -111,12 +111,15 @@ bool TemporalMetricStorage::buildMetrics(CollectorHandle *collector,
   }
   auto unreported_list = std::move(present->second);
   // Iterate over the unreporter metrics for `collector` and store result in `merged_metrics`
-  std::unique_ptr<AttributesHashMap> merged_metrics(new AttributesHashMap);
+  // The merged (and the cumulative) series are bound by the same cardinality limit as the
+  // interval they were recorded in.
+  std::unique_ptr<AttributesHashMap> merged_metrics(
+      new AttributesHashMap(delta_metrics->GetAttributesLimit()));
   for (auto &agg_hashmap : unreported_list)
   {
     agg_hashmap->GetAllEnteries(
         [&merged_metrics, this](const MetricAttributes &attributes, Aggregation &aggregation) {
-          auto agg = merged_metrics->Get(attributes);
+          auto agg = merged_metrics->GetForMerge(attributes);
           if (agg)
           {
             merged_metrics->Set(attributes, agg->Merge(aggregation));
@@ -149,7 +152,7 @@ bool TemporalMetricStorage::buildMetrics(CollectorHandle *collector,
       // merge current delta to previous cumulative
       last_aggr_hashmap->GetAllEnteries(
           [&merged_metrics, this](const MetricAttributes &attributes, Aggregation &aggregation) {
-            auto agg = merged_metrics->Get(attributes);
+            auto agg = merged_metrics->GetForMerge(attributes);
             if (agg)
             {
               merged_metrics->Set(attributes, agg->Merge(aggregation));
